@@ -3,6 +3,7 @@ import Srtla.Lemmas.Reg
 import Srtla.Lemmas.Keepalive
 import Srtla.Lemmas.Uplink
 import Srtla.Lemmas.Housekeeping
+import Srtla.Lemmas.ReconnectLive
 /-!
 # C07 at shell level: the sender shell projects onto the registration machine
 
@@ -32,14 +33,15 @@ event (`frame_origin`, `proj_ids`, `proj_reg1_pending`, `connected_only_reg3`, t
 the reconnection fields of a link (`rf`, `client_rf`, `flush_rf`, `uplink_rf`, `hk_rf`) and the invariant
 of one registration attempt (`Att`, `att_step`, `abandon_bound`).
 
-Extending the event alphabet (e.g. `Ev.failBind connId`, a socket re-creation failure consumed by the
-next reconnect attempt of that link — `mark_for_recovery` instead of `reset_for_reconnect`, the REG1 /
-REG2 re-send still goes out): `proj` already maps every unknown constructor to `[]` and `RegArm` to
-`False`; add one `projects_frame` line to `projects` and one `att_frame` line to `att_step` (the new
-event changes neither `reg` nor the links).  The housekeeping arm then needs the per-link lemmas
-`hkOne_reconnect` (the flag is cleared and the same frame is sent in both variants) and `hkOne_rf` (the
-failed variant leaves `(now, count+1, established, 0)`; `att_hk` needs the extra hypothesis that no
-re-creation failure is injected for the pending link) re-proved over the extended `hkLinksGo`.
+`Ev.failBind connId` (round 3: a socket re-creation failure consumed by the next reconnect attempt of
+that link — `mark_for_recovery` instead of `reset_for_reconnect`, the REG1 / REG2 re-send still goes
+out): `proj` maps it to `[]` and `RegArm` to `False` (`projects_failBind`, one `att_frame` line in
+`att_step`: the event changes neither `reg` nor the links).  In the housekeeping arm `hkOne_reconnect`
+holds for both variants (the flag is cleared and the same frame is sent), `hkOne_rf` / `rfGo` give the
+reconnection fields of both (`(now, 0, established, now + 5000)` / `(now, count', established, 0)`), and
+the attempt invariant `Att` (hence `att_hk`, `att_step`, `abandon_bound`) assumes that no re-creation
+failure is injected for the pending link: a never-established link whose re-creation fails is retried
+after 1000 ms and re-sends REG1 every time, which renews the REG2 wait.
 -/
 namespace Srtla.RegShell
 open Srtla Srtla.Gen Srtla.Conn Srtla.Link Srtla.Sys
@@ -303,6 +305,10 @@ theorem projects_crit (s : Sys F) (d : Nat) : Projects s (.crit d) :=
 theorem projects_failNext (s : Sys F) (cid : Nat) : Projects s (.failNext cid) :=
   projects_frame s _ rfl (fun h => h) rfl rfl rfl
 
+/-- Injecting a socket re-creation failure touches neither the manager nor the links. -/
+theorem projects_failBind (s : Sys F) (cid : Nat) : Projects s (.failBind cid) :=
+  projects_frame s _ rfl (fun h => h) rfl rfl rfl
+
 /-- **Client event**: `reg` is untouched; a link's flag either stays or is cleared (tear-down after a
 failed send), which is what the `drop` events do. -/
 theorem projects_client (s : Sys F) (now : Nat) (pkt : Bytes) : Projects s (.client now pkt) := by
@@ -494,35 +500,42 @@ theorem hkPre_run (s : Sys F) (now : Nat) (c : List Bool) :
   · simp only [h]
     rfl
 
-/-- One link of the per-link loop that takes the reconnect branch is the machine's `reconnect`. -/
-theorem hkOne_reconnect (classic : Bool) (now : Nat) (l : FLink F) (i : Nat) (reg : Reg.Reg) (c : List Bool)
+/-- One link of the per-link loop that takes the reconnect branch is the machine's `reconnect` — whether
+the socket re-creation succeeds or fails (`fb`: injected failures): the flag is cleared and the same
+frame is sent in both variants. -/
+theorem hkOne_reconnect (classic : Bool) (now : Nat) (l : FLink F) (i : Nat) (reg : Reg.Reg) (fb : List Nat)
+    (c : List Bool)
     (hto : l.isTimedOut now = true) (hsa : l.shouldAttemptReconnect now = true) :
-    (Reg.stepReconnect ⟨reg, c⟩ i now).1 = ⟨(Keepalive.hkOne classic now l i reg).2.1, c.set i false⟩ ∧
-    (Keepalive.hkOne classic now l i reg).2.2 =
+    (Reg.stepReconnect ⟨reg, c⟩ i now).1 = ⟨(Keepalive.hkOne classic now l i reg fb).2.1, c.set i false⟩ ∧
+    (Keepalive.hkOne classic now l i reg fb).2.2 =
       (Reg.stepReconnect ⟨reg, c⟩ i now).2.map (fun o => (l.core.connId, o.pkt)) ∧
     (∀ o ∈ (Reg.stepReconnect ⟨reg, c⟩ i now).2, o.kind ≠ .bcast ∧ o.target = i) ∧
-    (Keepalive.hkOne classic now l i reg).1.core.connected = false ∧
-    (Keepalive.hkOne classic now l i reg).1.core.connId = l.core.connId := by
-  have hcl := (Hk.reconnectLink_fields l now).2.2.2.2.2.2.2.2.2
-  have hid := (Hk.reconnectLink_fields l now).2.2.2.2.1
-  have hrl : Keepalive.reconnected l now = Hk.reconnectLink l now := rfl
+    (Keepalive.hkOne classic now l i reg fb).1.core.connected = false ∧
+    (Keepalive.hkOne classic now l i reg fb).1.core.connId = l.core.connId := by
+  have hal : Keepalive.attempted (fb.contains l.core.connId) l now =
+      Hk.attemptLink (fb.contains l.core.connId) l now := by
+    unfold Keepalive.attempted Hk.attemptLink Hk.failedLink
+    split <;> rfl
+  obtain ⟨-, -, hid, -, -, -, hcl⟩ := Hk.attemptLink_fields (fb.contains l.core.connId) l now
   unfold Keepalive.hkOne Reg.stepReconnect
   simp only [hto, hsa, if_true]
+  rw [hal]
+  generalize fb.contains l.core.connId = fails at hid hcl ⊢
   cases hp : reg.pending with
-  | none => simp [hrl, hcl.connected, hid]
+  | none => simp [hcl.connected, hid]
   | some p =>
     by_cases hpi : p = i
-    · simp [hpi, hrl, hcl.connected, hid]
-    · simp [hpi, hrl, hcl.connected, hid]
+    · simp [hpi, hcl.connected, hid]
+    · simp [hpi, hcl.connected, hid]
 
 /-- A link that does not take the reconnect branch leaves the manager alone and puts only
 keepalives on the wire. -/
-theorem hkOne_quiet (classic : Bool) (now : Nat) (l : FLink F) (i : Nat) (reg : Reg.Reg)
+theorem hkOne_quiet (classic : Bool) (now : Nat) (l : FLink F) (i : Nat) (reg : Reg.Reg) (fb : List Nat)
     (h : (l.isTimedOut now && l.shouldAttemptReconnect now) = false) :
-    (Keepalive.hkOne classic now l i reg).2.1 = reg ∧
-    (Keepalive.hkOne classic now l i reg).2.2.filter isRegFrame = [] ∧
-    (Keepalive.hkOne classic now l i reg).1.core.connected = l.core.connected ∧
-    (Keepalive.hkOne classic now l i reg).1.core.connId = l.core.connId := by
+    (Keepalive.hkOne classic now l i reg fb).2.1 = reg ∧
+    (Keepalive.hkOne classic now l i reg fb).2.2.filter isRegFrame = [] ∧
+    (Keepalive.hkOne classic now l i reg fb).1.core.connected = l.core.connected ∧
+    (Keepalive.hkOne classic now l i reg fb).1.core.connId = l.core.connId := by
   unfold Keepalive.hkOne
   cases hto : l.isTimedOut now with
   | false =>
@@ -547,11 +560,11 @@ theorem rcsFrom_cons (now : Nat) (l : FLink F) (rest : List (FLink F)) (i : Nat)
 reconnect branch, in index order: same manager state afterwards, the REG frames on the wire are the
 emissions (`cid k` = conn id of link `k`), and the other wire datagrams are keepalives. -/
 theorem hkGo_run (classic : Bool) (now : Nat) (cid : Nat → Nat) :
-    ∀ (ls : List (FLink F)) (i : Nat) (reg : Reg.Reg) (c : List Bool),
+    ∀ (ls : List (FLink F)) (i : Nat) (reg : Reg.Reg) (fb : List Nat) (c : List Bool),
       (∀ (j : Nat) l, ls[j]? = some l → cid (i + j) = l.core.connId) →
       (Reg.Sys.run ⟨reg, c⟩ ((rcsFrom now ls i).map fun k => Reg.Ev.reconnect k now)).1 =
-        ⟨(hkLinksGo classic now ls i reg).2.1, (rcsFrom now ls i).foldl (fun a k => a.set k false) c⟩ ∧
-      (hkLinksGo classic now ls i reg).2.2.filter isRegFrame =
+        ⟨(hkLinksGo classic now ls i reg fb).2.1, (rcsFrom now ls i).foldl (fun a k => a.set k false) c⟩ ∧
+      (hkLinksGo classic now ls i reg fb).2.2.filter isRegFrame =
         (Reg.Sys.run ⟨reg, c⟩ ((rcsFrom now ls i).map fun k => Reg.Ev.reconnect k now)).2.map
           (fun o => (cid o.target, o.pkt)) ∧
       ∀ o ∈ (Reg.Sys.run ⟨reg, c⟩ ((rcsFrom now ls i).map fun k => Reg.Ev.reconnect k now)).2,
@@ -559,10 +572,10 @@ theorem hkGo_run (classic : Bool) (now : Nat) (cid : Nat → Nat) :
   intro ls
   induction ls with
   | nil =>
-    intro i reg c _
+    intro i reg fb c _
     simp [rcsFrom, hkLinksGo, Reg.Sys.run]
   | cons l rest ih =>
-    intro i reg c hcid
+    intro i reg fb c hcid
     have hcid0 : cid i = l.core.connId := by simpa using hcid 0 l rfl
     have hcid' : ∀ (j : Nat) x, rest[j]? = some x → cid (i + 1 + j) = x.core.connId := by
       intro j x hx
@@ -571,8 +584,8 @@ theorem hkGo_run (classic : Bool) (now : Nat) (cid : Nat → Nat) :
     rw [Keepalive.hkLinksGo_cons, rcsFrom_cons]
     cases hcond : (l.isTimedOut now && l.shouldAttemptReconnect now) with
     | false =>
-      obtain ⟨q1, q2, -, -⟩ := hkOne_quiet classic now l i reg hcond
-      obtain ⟨r1, r2, r3⟩ := ih (i + 1) reg c hcid'
+      obtain ⟨q1, q2, -, -⟩ := hkOne_quiet classic now l i reg fb hcond
+      obtain ⟨r1, r2, r3⟩ := ih (i + 1) reg (Keepalive.hkFbK now fb l) c hcid'
       simp only [Bool.false_eq_true, if_false, q1, List.filter_append, q2, List.nil_append]
       refine ⟨r1, r2, fun o ho => ?_⟩
       obtain ⟨a, b, d⟩ := r3 o ho
@@ -582,8 +595,9 @@ theorem hkGo_run (classic : Bool) (now : Nat) (cid : Nat → Nat) :
         cases h : l.isTimedOut now <;> simp_all
       have hsa : l.shouldAttemptReconnect now = true := by
         cases h : l.shouldAttemptReconnect now <;> simp_all
-      obtain ⟨q1, q2, q3, -, -⟩ := hkOne_reconnect classic now l i reg c hto hsa
-      obtain ⟨r1, r2, r3⟩ := ih (i + 1) (Keepalive.hkOne classic now l i reg).2.1 (c.set i false) hcid'
+      obtain ⟨q1, q2, q3, -, -⟩ := hkOne_reconnect classic now l i reg fb c hto hsa
+      obtain ⟨r1, r2, r3⟩ := ih (i + 1) (Keepalive.hkOne classic now l i reg fb).2.1 (Keepalive.hkFbK now fb l)
+        (c.set i false) hcid'
       simp only [if_true, List.map_cons, run_cons, List.foldl_cons]
       have hstep : (Reg.Sys.step ⟨reg, c⟩ (.reconnect i now)) = Reg.stepReconnect ⟨reg, c⟩ i now := rfl
       rw [hstep, q1]
@@ -610,20 +624,21 @@ theorem hkGo_run (classic : Bool) (now : Nat) (cid : Nat → Nat) :
 
 /-- The `connected` flags after the per-link loop: cleared exactly on the reconnect set. -/
 theorem hkGo_flags (classic : Bool) (now : Nat) :
-    ∀ (ls : List (FLink F)) (i : Nat) (reg : Reg.Reg) (pre : List Bool), pre.length = i →
+    ∀ (ls : List (FLink F)) (i : Nat) (reg : Reg.Reg) (fb : List Nat) (pre : List Bool), pre.length = i →
       (rcsFrom now ls i).foldl (fun a k => a.set k false) (pre ++ flags ls) =
-        pre ++ flags (hkLinksGo classic now ls i reg).1 ∧
-      cids (hkLinksGo classic now ls i reg).1 = cids ls := by
+        pre ++ flags (hkLinksGo classic now ls i reg fb).1 ∧
+      cids (hkLinksGo classic now ls i reg fb).1 = cids ls := by
   intro ls
   induction ls with
-  | nil => intro i reg pre _; simp [rcsFrom, hkLinksGo, flags, cids]
+  | nil => intro i reg fb pre _; simp [rcsFrom, hkLinksGo, flags, cids]
   | cons l rest ih =>
-    intro i reg pre hpre
+    intro i reg fb pre hpre
     rw [Keepalive.hkLinksGo_cons, rcsFrom_cons]
     cases hcond : (l.isTimedOut now && l.shouldAttemptReconnect now) with
     | false =>
-      obtain ⟨-, -, q3, q4⟩ := hkOne_quiet classic now l i reg hcond
-      obtain ⟨r1, r2⟩ := ih (i + 1) (Keepalive.hkOne classic now l i reg).2.1 (pre ++ [l.core.connected])
+      obtain ⟨-, -, q3, q4⟩ := hkOne_quiet classic now l i reg fb hcond
+      obtain ⟨r1, r2⟩ := ih (i + 1) (Keepalive.hkOne classic now l i reg fb).2.1 (Keepalive.hkFbK now fb l)
+        (pre ++ [l.core.connected])
         (by simp [hpre])
       simp only [Bool.false_eq_true, if_false]
       constructor
@@ -637,8 +652,9 @@ theorem hkGo_flags (classic : Bool) (now : Nat) :
         cases h : l.isTimedOut now <;> simp_all
       have hsa : l.shouldAttemptReconnect now = true := by
         cases h : l.shouldAttemptReconnect now <;> simp_all
-      obtain ⟨-, -, -, q3, q4⟩ := hkOne_reconnect classic now l i reg [] hto hsa
-      obtain ⟨r1, r2⟩ := ih (i + 1) (Keepalive.hkOne classic now l i reg).2.1 (pre ++ [false]) (by simp [hpre])
+      obtain ⟨-, -, -, q3, q4⟩ := hkOne_reconnect classic now l i reg fb [] hto hsa
+      obtain ⟨r1, r2⟩ := ih (i + 1) (Keepalive.hkOne classic now l i reg fb).2.1 (Keepalive.hkFbK now fb l)
+        (pre ++ [false]) (by simp [hpre])
       simp only [if_true, List.foldl_cons]
       constructor
       · have : (pre ++ flags (l :: rest)).set i false = (pre ++ [false]) ++ flags rest := by
@@ -703,7 +719,8 @@ theorem hkMid_links (s : Sys F) (now : Nat) :
     (hkRcs s now).foldl (fun a k => a.set k false) (flags s.links) = flags (Keepalive.hkMid s now).1 ∧
     cids (Keepalive.hkMid s now).1 = cids s.links := by
   obtain ⟨p1, p2⟩ := hkPre_links s now
-  obtain ⟨g1, g2⟩ := hkGo_flags s.cfg.classic now (Keepalive.hkPre s now).2 0 (Keepalive.hkPre s now).1 [] rfl
+  obtain ⟨g1, g2⟩ := hkGo_flags s.cfg.classic now (Keepalive.hkPre s now).2 0 (Keepalive.hkPre s now).1
+    s.failBind [] rfl
   simp only [List.nil_append] at g1
   unfold hkRcs Keepalive.hkMid
   rw [← p1, g1, g2, p2]
@@ -741,7 +758,7 @@ theorem hk_run_eq (s : Sys F) (now : Nat) :
         drvSends (Keepalive.hkSends (Keepalive.hkMid s now).1 (Keepalive.hkMid s now).2.1 now)) := by
   obtain ⟨m1, m2⟩ := hkMid_links s now
   obtain ⟨g1, -, -⟩ := hkGo_run s.cfg.classic now (cidAt s) (Keepalive.hkPre s now).2 0
-    (Keepalive.hkPre s now).1 (flags s.links) (hkPre_cid s now)
+    (Keepalive.hkPre s now).1 s.failBind (flags s.links) (hkPre_cid s now)
   have g1' : (Reg.Sys.run ⟨(Keepalive.hkPre s now).1, flags s.links⟩
       ((hkRcs s now).map fun k => Reg.Ev.reconnect k now)).1 =
       ⟨(Keepalive.hkMid s now).2.1, flags (Keepalive.hkMid s now).1⟩ := by
@@ -802,7 +819,7 @@ theorem hk_run (s : Sys F) (now : Nat) :
     cids (handleHousekeeping s now).1.links = cids s.links := by
   obtain ⟨m1, m2⟩ := hkMid_links s now
   obtain ⟨-, g2, g3⟩ := hkGo_run s.cfg.classic now (cidAt s) (Keepalive.hkPre s now).2 0
-    (Keepalive.hkPre s now).1 (flags s.links) (hkPre_cid s now)
+    (Keepalive.hkPre s now).1 s.failBind (flags s.links) (hkPre_cid s now)
   have hlen : (Keepalive.hkPre s now).2.length = s.links.length := (Keepalive.hkPre_spec s now).1
   have hfin : flags (handleHousekeeping s now).1.links = flags (Keepalive.hkMid s now).1 ∧
       cids (handleHousekeeping s now).1.links = cids s.links := by
@@ -815,7 +832,7 @@ theorem hk_run (s : Sys F) (now : Nat) :
   · exact regSys_ext rfl hfin.1.symm
   · rw [Keepalive.handleHousekeeping_wire, List.append_assoc, List.filter_append, List.flatMap_append]
     congr 1
-    · show (hkLinksGo s.cfg.classic now (Keepalive.hkPre s now).2 0 (Keepalive.hkPre s now).1).2.2.filter isRegFrame = _
+    · show (hkLinksGo s.cfg.classic now (Keepalive.hkPre s now).2 0 (Keepalive.hkPre s now).1 s.failBind).2.2.filter isRegFrame = _
       rw [g2]
       apply map_eq_flatMap
       intro o ho
@@ -860,6 +877,7 @@ theorem projects (s : Sys F) (e : Ev) : Projects s e := by
   | setCfg cfg => exact projects_setCfg s cfg
   | crit d => exact projects_crit s d
   | failNext cid => exact projects_failNext s cid
+  | failBind cid => exact projects_failBind s cid
 
 /-! ## 7. Runs of the shell, and the ghost observer along them -/
 
@@ -1060,7 +1078,7 @@ theorem hkMid_reg (s : Sys F) (now : Nat) :
     (Keepalive.hkMid s now).2.1.broadcastPending = s.reg.broadcastPending ∧
     (Keepalive.hkMid s now).2.1.id = s.reg.id := by
   obtain ⟨g1, -, -⟩ := hkGo_run s.cfg.classic now (cidAt s) (Keepalive.hkPre s now).2 0
-    (Keepalive.hkPre s now).1 (flags s.links) (hkPre_cid s now)
+    (Keepalive.hkPre s now).1 s.failBind (flags s.links) (hkPre_cid s now)
   have hpre := hkPre_run s now (flags s.links)
   have hrc : ∀ e ∈ (rcsFrom now (Keepalive.hkPre s now).2 0).map (fun k => Reg.Ev.reconnect k now),
       ¬ e.IsPkt ∧ ¬ e.IsDriver := by
@@ -1110,7 +1128,7 @@ theorem hk_bcast_round (s : Sys F) (now : Nat) :
   obtain ⟨hb, -⟩ := hk_broadcast s now
   obtain ⟨-, m2⟩ := hkMid_links s now
   obtain ⟨-, -, g3⟩ := hkGo_run s.cfg.classic now (cidAt s) (Keepalive.hkPre s now).2 0
-    (Keepalive.hkPre s now).1 (flags s.links) (hkPre_cid s now)
+    (Keepalive.hkPre s now).1 s.failBind (flags s.links) (hkPre_cid s now)
   obtain ⟨-, hw, -⟩ := hk_run s now
   have hrun : (Reg.Sys.run (abs s) (proj s (.hk now))).2 = _ := congrArg Prod.snd (hk_run_eq s now)
   generalize hR : (Reg.Sys.run ⟨(Keepalive.hkPre s now).1, flags s.links⟩
@@ -1572,22 +1590,39 @@ theorem hkLive_fst (classic : Bool) (now : Nat) (l : FLink F) :
     simp only [Bool.false_eq_true, if_false]
     cases h2 : l.needsRttMeasurement now <;> simp only [if_true, Bool.false_eq_true, if_false]
 
+/-- The reconnection fields the reconnect branch at `now` leaves: `(now, 0, established, now + 5000)`
+when the socket re-creation succeeds (`reset_for_reconnect`, `mark_success`, `reset_startup_grace`),
+`(now, count', established, 0)` when it fails (`mark_for_recovery` fallback: the counter
+`record_attempt` incremented — for an established link — stays, no grace). -/
+def rfAttempt (fails : Bool) (now : Nat) (l : FLink F) : Nat × Nat × Nat × Nat :=
+  if fails then
+    (now, (if l.established = 0 then l.failCount else min (l.failCount + 1) 4294967295), l.established, 0)
+  else (now, 0, l.established, now + 5000)
+
 /-- Reconnection fields of one link after its turn in the per-link loop. -/
-theorem hkOne_rf (classic : Bool) (now : Nat) (l : FLink F) (i : Nat) (reg : Reg.Reg) :
-    rf (Keepalive.hkOne classic now l i reg).1 =
-      if takesReconnect now l then (now, 0, l.established, now + 5000) else rf l := by
+theorem hkOne_rf (classic : Bool) (now : Nat) (l : FLink F) (i : Nat) (reg : Reg.Reg) (fb : List Nat) :
+    rf (Keepalive.hkOne classic now l i reg fb).1 =
+      if takesReconnect now l then rfAttempt (fb.contains l.core.connId) now l else rf l := by
   cases hc : takesReconnect now l with
   | true =>
     have hto : l.isTimedOut now = true := by
       unfold takesReconnect at hc; cases h : l.isTimedOut now <;> simp_all
     have hsa : l.shouldAttemptReconnect now = true := by
       unfold takesReconnect at hc; cases h : l.shouldAttemptReconnect now <;> simp_all
-    obtain ⟨f1, f2, f3, f4, -⟩ := Hk.reconnectLink_fields l now
-    have hrl : Keepalive.reconnected l now = Hk.reconnectLink l now := rfl
-    have hrf : rf (Hk.reconnectLink l now) = (now, 0, l.established, now + 5000) := by
-      unfold rf; rw [f1, f2, f3, f4]
+    have hrf : rf (Keepalive.attempted (fb.contains l.core.connId) l now) =
+        rfAttempt (fb.contains l.core.connId) now l := by
+      unfold Keepalive.attempted rfAttempt
+      cases fb.contains l.core.connId
+      · obtain ⟨f1, f2, f3, f4, -⟩ := Hk.reconnectLink_fields l now
+        have hrl : Keepalive.reconnected l now = Hk.reconnectLink l now := rfl
+        simp only [Bool.false_eq_true, if_false, hrl]
+        unfold rf; rw [f1, f2, f3, f4]
+      · obtain ⟨f1, f2, f3, f4, -⟩ := Hk.failedLink_fields l now
+        have hfl : (l.recordAttempt now).markForRecovery = Hk.failedLink l now := rfl
+        simp only [if_true, hfl]
+        unfold rf; rw [f1, f2, f3, f4]
     unfold Keepalive.hkOne
-    simp only [hto, hsa, if_true, hrl]
+    simp only [hto, hsa, if_true]
     cases reg.pending with
     | none => exact hrf
     | some p =>
@@ -1608,17 +1643,52 @@ theorem hkOne_rf (classic : Bool) (now : Nat) (l : FLink F) (i : Nat) (reg : Reg
         unfold takesReconnect at hc; rw [hto] at hc; simpa using hc
       simp [hsa]
 
+/-- The reconnection fields of every link after the per-link loop, the injected re-creation failures
+`fb` being consumed by the attempts they fail. -/
+def rfGo (now : Nat) : List (FLink F) → List Nat → List (Nat × Nat × Nat × Nat)
+  | [], _ => []
+  | l :: rest, fb =>
+    (if takesReconnect now l then rfAttempt (fb.contains l.core.connId) now l else rf l) ::
+      rfGo now rest (Keepalive.hkFbK now fb l)
+
 theorem hkGo_rf (classic : Bool) (now : Nat) :
-    ∀ (ls : List (FLink F)) (i : Nat) (reg : Reg.Reg),
-      (hkLinksGo classic now ls i reg).1.map rf =
-        ls.map (fun l => if takesReconnect now l then (now, 0, l.established, now + 5000) else rf l) := by
+    ∀ (ls : List (FLink F)) (i : Nat) (reg : Reg.Reg) (fb : List Nat),
+      (hkLinksGo classic now ls i reg fb).1.map rf = rfGo now ls fb := by
   intro ls
   induction ls with
-  | nil => intro i reg; simp [hkLinksGo]
+  | nil => intro i reg fb; simp [hkLinksGo, rfGo]
   | cons l rest ih =>
-    intro i reg
+    intro i reg fb
     rw [Keepalive.hkLinksGo_cons]
-    simp only [List.map_cons, hkOne_rf, ih]
+    simp only [List.map_cons, hkOne_rf, ih, rfGo]
+
+theorem hkFbK_mem (now : Nat) (fb : List Nat) (l : FLink F) (a : Nat) (h : a ∈ Keepalive.hkFbK now fb l) :
+    a ∈ fb := by
+  unfold Keepalive.hkFbK at h
+  split at h
+  · exact List.mem_of_mem_erase h
+  · exact h
+
+/-- A link for whose conn id no re-creation failure is injected gets the successful variant. -/
+theorem rfGo_get (now : Nat) :
+    ∀ (ls : List (FLink F)) (fb : List Nat) (i : Nat) (l : FLink F), ls[i]? = some l → l.core.connId ∉ fb →
+      (rfGo now ls fb)[i]? =
+        some (if takesReconnect now l then (now, 0, l.established, now + 5000) else rf l) := by
+  intro ls
+  induction ls with
+  | nil => intro fb i l h; simp at h
+  | cons x rest ih =>
+    intro fb i l h hfb
+    cases i with
+    | zero =>
+      simp only [List.getElem?_cons_zero, Option.some.injEq] at h
+      subst h
+      have : fb.contains x.core.connId = false := by simpa using hfb
+      simp only [rfGo, List.getElem?_cons_zero, this, rfAttempt, Bool.false_eq_true, if_false]
+    | succ i =>
+      simp only [List.getElem?_cons_succ] at h
+      simp only [rfGo, List.getElem?_cons_succ]
+      exact ih _ i l h (fun hm => hfb (hkFbK_mem now fb x _ hm))
 
 omit [Scalar F] in
 theorem hkLs2_rf (ls : List (FLink F)) (now : Nat) (sends : Reg.DriverSends) :
@@ -1645,16 +1715,19 @@ theorem hkLs3_rf (ls : List (FLink F)) (now : Nat) (sends : Reg.DriverSends) :
   · rfl
 
 /-- **Housekeeping tick**, reconnection fields of every link: a link that takes the reconnect branch
-(decided on the records the loop sees) gets `(now, 0, established, now + 5000)`, every other link keeps
-its fields; the injected-failure set is untouched. -/
+(decided on the records the loop sees) gets `(now, 0, established, now + 5000)` — or, when a socket
+re-creation failure is injected for its conn id, `(now, count', established, 0)` (`rfGo`) —, every
+other link keeps its fields; the injected send-failure set is untouched, the injected re-creation
+failures are only consumed. -/
 theorem hk_rf (s : Sys F) (now : Nat) :
-    (handleHousekeeping s now).1.links.map rf =
-      (Keepalive.hkPre s now).2.map
-        (fun l => if takesReconnect now l then (now, 0, l.established, now + 5000) else rf l) ∧
-    (handleHousekeeping s now).1.failNext = s.failNext := by
-  refine ⟨?_, rfl⟩
-  rw [Keepalive.handleHousekeeping_links, hkLs3_rf, hkLs2_rf]
-  exact hkGo_rf s.cfg.classic now _ 0 _
+    (handleHousekeeping s now).1.links.map rf = rfGo now (Keepalive.hkPre s now).2 s.failBind ∧
+    (handleHousekeeping s now).1.failNext = s.failNext ∧
+    (∀ a, a ∈ (handleHousekeeping s now).1.failBind → a ∈ s.failBind) := by
+  refine ⟨?_, rfl, fun a ha => ?_⟩
+  · rw [Keepalive.handleHousekeeping_links, hkLs3_rf, hkLs2_rf]
+    exact hkGo_rf s.cfg.classic now _ 0 _ _
+  · rw [(Hk.hk_eq s now).2.2.2.2.2] at ha
+    exact Hk.hkBindLeft_mem now _ _ a ha
 
 /-! ## 11. The REG2 wait is renewed at most once per attempt (`C07_abandon_bound`) -/
 
@@ -1729,12 +1802,13 @@ def Unanswered (i : Nat) : Sys F → List Ev → Prop
   | _, [] => True
   | s, e :: es => (step s e).1.reg.pending = some i ∧ Unanswered i (step s e).1 es
 
-/-- **The invariant of one attempt**: uplink `i` (conn id `cid`) is pending; no send failure is
-injected for it; and either the deadline is still the one the observation started with (`D`), or it
+/-- **The invariant of one attempt**: uplink `i` (conn id `cid`) is pending; no send failure and no
+socket re-creation failure is injected for it; and either the deadline is still the one the observation started with (`D`), or it
 was renewed ONCE, at a tick `t < D`, and since then link `i`'s reconnection fields are untouched. -/
 structure Att (i cid D : Nat) (s : Sys F) : Prop where
   pending : s.reg.pending = some i
   nofail : s.failNext.contains cid = false
+  nobind : s.failBind.contains cid = false
   link : ∃ l, s.links[i]? = some l ∧ l.core.connId = cid ∧
     (s.reg.pendingTimeoutAt = D ∨
       ∃ t, 0 < t ∧ t < D ∧ s.reg.pendingTimeoutAt = t + 4000 ∧ FreshAt t l)
@@ -1747,11 +1821,12 @@ omit [Scalar F] in
 /-- Transport of the link clause along an event that keeps the deadline and link `i`'s fields. -/
 theorem Att.keep {i cid D : Nat} {s s' : Sys F} (h : Att i cid D s) (hp : s'.reg.pending = some i)
     (hd : s'.reg.pendingTimeoutAt = s.reg.pendingTimeoutAt) (hnf : s'.failNext.contains cid = false)
+    (hnb : s'.failBind.contains cid = false)
     (hl : ∀ l, s.links[i]? = some l → ∃ l', s'.links[i]? = some l' ∧ l'.core.connId = l.core.connId ∧
       ∀ t, FreshAt t l → FreshAt t l') : Att i cid D s' := by
   obtain ⟨l, h1, h2, h3⟩ := h.link
   obtain ⟨l', g1, g2, g3⟩ := hl l h1
-  refine ⟨hp, hnf, l', g1, g2.trans h2, ?_⟩
+  refine ⟨hp, hnf, hnb, l', g1, g2.trans h2, ?_⟩
   rw [hd]
   rcases h3 with h3 | ⟨t, a, b, c, d⟩
   · exact Or.inl h3
@@ -1761,7 +1836,8 @@ theorem att_client {i cid D : Nat} {s : Sys F} (h : Att i cid D s) (now : Nat) (
     Att i cid D (handleSrtPacket s pkt now).1 := by
   obtain ⟨-, hreg, -⟩ := Hk.client_pw s pkt now
   obtain ⟨hpw, hsub⟩ := client_rf s pkt now
-  refine h.keep (by rw [hreg]; exact h.pending) (by rw [hreg]) ?_ ?_
+  refine h.keep (by rw [hreg]; exact h.pending) (by rw [hreg]) ?_
+    (by rw [Hk.client_failBind]; exact h.nobind) ?_
   · cases hc : (handleSrtPacket s pkt now).1.failNext.contains cid with
     | false => rfl
     | true => have := hsub cid hc; rw [h.nofail] at this; cases this
@@ -1778,7 +1854,8 @@ theorem att_flush {i cid D : Nat} {s : Sys F} (h : Att i cid D s) (now : Nat) :
     Att i cid D (flushAllBatches s now).1 := by
   obtain ⟨-, hreg, -⟩ := Hk.flush_pw false none s now
   obtain ⟨hpw, hsub⟩ := flush_rf s now
-  refine h.keep (by rw [hreg]; exact h.pending) (by rw [hreg]) ?_ ?_
+  refine h.keep (by rw [hreg]; exact h.pending) (by rw [hreg]) ?_
+    (by rw [Hk.flush_failBind]; exact h.nobind) ?_
   · cases hc : (flushAllBatches s now).1.failNext.contains cid with
     | false => rfl
     | true => have := hsub cid hc; rw [h.nofail] at this; cases this
@@ -1801,7 +1878,8 @@ theorem att_uplink {i cid D : Nat} {s : Sys F} (h : Att i cid D s) (now c : Nat)
       have := hreg
       rw [hp, run_single] at this
       rw [this]; exact hstay
-  refine h.keep hstay hd (by rw [(uplink_rf s c data now i _ (Classical.choose_spec h.link).1).2]; exact h.nofail) ?_
+  refine h.keep hstay hd (by rw [(uplink_rf s c data now i _ (Classical.choose_spec h.link).1).2]; exact h.nofail)
+    (by rw [Hk.uplink_failBind]; exact h.nobind) ?_
   intro l hl
   obtain ⟨⟨b, hb, hid, hrf⟩, -⟩ := uplink_rf s c data now i l hl
   refine ⟨b, hb, hid, fun t hf => ?_⟩
@@ -1846,7 +1924,7 @@ theorem att_hk {i cid D : Nat} {s : Sys F} (h : Att i cid D s) (hok : RegOk s.re
   refine ⟨?_, hlt⟩
   obtain ⟨-, t3⟩ := t2 hlt
   rw [hreg] at t3
-  obtain ⟨hrf, hfn⟩ := hk_rf s now
+  obtain ⟨hrf, hfn, hfbsub⟩ := hk_rf s now
   rw [hkPre_links_eq s now hw] at hrf
   obtain ⟨l, hl, hcid, hph⟩ := h.link
   have hlen : (handleHousekeeping s now).1.links.length = s.links.length := by
@@ -1858,9 +1936,12 @@ theorem att_hk {i cid D : Nat} {s : Sys F} (h : Att i cid D s) (hok : RegOk s.re
     have := congrArg (fun x : List Nat => x[i]?) hids
     simp only [cids, List.getElem?_map, hl, hl', Option.map_some, Option.some.injEq] at this
     rw [this]; exact hcid
+  have hnb : l.core.connId ∉ s.failBind := by
+    rw [hcid]; simpa using h.nobind
   have hrf' : rf l' = if takesReconnect now l then (now, 0, l.established, now + 5000) else rf l := by
     have := congrArg (fun x : List (Nat × Nat × Nat × Nat) => x[i]?) hrf
-    simpa only [List.getElem?_map, hl, hl', Option.map_some, Option.some.injEq] using this
+    rw [rfGo_get now s.links s.failBind i l hl hnb] at this
+    simpa only [List.getElem?_map, hl', Option.map_some, Option.some.injEq] using this
   have hmem : i ∈ hkRcs s now ↔ takesReconnect now l = true := by
     unfold hkRcs
     rw [hkPre_links_eq s now hw, mem_rcsFrom]
@@ -1870,7 +1951,15 @@ theorem att_hk {i cid D : Nat} {s : Sys F} (h : Att i cid D s) (hok : RegOk s.re
       subst this
       rw [hl] at hx; cases hx; exact hc
     · intro hc; exact ⟨i, l, by omega, hl, hc⟩
-  refine ⟨hstay, by rw [hfn]; exact h.nofail, l', hl', hcid', ?_⟩
+  have hnb' : (handleHousekeeping s now).1.failBind.contains cid = false := by
+    cases hc : (handleHousekeeping s now).1.failBind.contains cid with
+    | false => rfl
+    | true =>
+      have := hfbsub cid (by simpa using hc)
+      have hn := h.nobind
+      simp only [List.contains_eq_mem, decide_eq_false_iff_not] at hn
+      exact absurd this hn
+  refine ⟨hstay, by rw [hfn]; exact h.nofail, hnb', l', hl', hcid', ?_⟩
   by_cases htr : takesReconnect now l = true
   · rw [if_pos (hmem.2 htr)] at t3
     rw [htr] at hrf'
@@ -1897,15 +1986,16 @@ theorem att_hk {i cid D : Nat} {s : Sys F} (h : Att i cid D s) (hok : RegOk s.re
 
 /-- Events that touch neither the manager nor the links, and add no failure for `cid`. -/
 theorem att_frame {i cid D : Nat} {s s' : Sys F} (h : Att i cid D s) (hreg : s'.reg = s.reg)
-    (hlinks : s'.links = s.links) (hfn : s'.failNext.contains cid = false) : Att i cid D s' :=
-  h.keep (by rw [hreg]; exact h.pending) (by rw [hreg]) hfn
+    (hlinks : s'.links = s.links) (hfn : s'.failNext.contains cid = false)
+    (hfb : s'.failBind.contains cid = false) : Att i cid D s' :=
+  h.keep (by rw [hreg]; exact h.pending) (by rw [hreg]) hfn hfb
     (fun l hl => ⟨l, by rw [hlinks]; exact hl, rfl, fun _ hf => hf⟩)
 
 /-- **One event.**  The invariant of the attempt survives every shell event after which uplink `i` is
-still pending, provided the event does not inject a send failure for the pending link and a tick's
-clock is positive; a tick that leaves the attempt pending came before its deadline. -/
+still pending, provided the event injects neither a send failure nor a socket re-creation failure for
+the pending link and a tick's clock is positive; a tick that leaves the attempt pending came before its deadline. -/
 theorem att_step {i cid D : Nat} {s : Sys F} (h : Att i cid D s) (hok : RegOk s.reg) (e : Ev)
-    (hstay : (step s e).1.reg.pending = some i) (hne : e ≠ .failNext cid)
+    (hstay : (step s e).1.reg.pending = some i) (hne : e ≠ .failNext cid) (hnb : e ≠ .failBind cid)
     (hpos : ∀ now, e = .hk now → 0 < now) :
     Att i cid D (step s e).1 ∧ (∀ now, e = .hk now → now < s.reg.pendingTimeoutAt) := by
   cases e with
@@ -1915,10 +2005,10 @@ theorem att_step {i cid D : Nat} {s : Sys F} (h : Att i cid D s) (hok : RegOk s.
   | hk now =>
     obtain ⟨a, b⟩ := att_hk h hok now (hpos now rfl) hstay
     exact ⟨a, fun t he => by cases he; exact b⟩
-  | setCfg cfg => exact ⟨att_frame h rfl rfl h.nofail, fun _ he => by cases he⟩
-  | crit d => exact ⟨att_frame h rfl rfl h.nofail, fun _ he => by cases he⟩
+  | setCfg cfg => exact ⟨att_frame h rfl rfl h.nofail h.nobind, fun _ he => by cases he⟩
+  | crit d => exact ⟨att_frame h rfl rfl h.nofail h.nobind, fun _ he => by cases he⟩
   | failNext c =>
-    refine ⟨att_frame h rfl rfl ?_, fun _ he => by cases he⟩
+    refine ⟨att_frame h rfl rfl ?_ h.nobind, fun _ he => by cases he⟩
     show (c :: s.failNext).contains cid = false
     have hc : c ≠ cid := fun hc => hne (by rw [hc])
     have := h.nofail
@@ -1926,38 +2016,51 @@ theorem att_step {i cid D : Nat} {s : Sys F} (h : Att i cid D s) (hok : RegOk s.
     rintro (h1 | h1)
     · exact hc h1.symm
     · exact this h1
+  | failBind c =>
+    refine ⟨att_frame h rfl rfl h.nofail ?_, fun _ he => by cases he⟩
+    show (c :: s.failBind).contains cid = false
+    have hc : c ≠ cid := fun hc => hnb (by rw [hc])
+    have := h.nobind
+    simp only [List.contains_eq_mem, List.mem_cons, decide_eq_false_iff_not] at this ⊢
+    rintro (h1 | h1)
+    · exact hc h1.symm
+    · exact this h1
 
 /-- **Run form.**  Start observing in any reachable state in which uplink `i` is pending with deadline
 `D` (e.g. right after the first REG1 of the attempt at `t0`: `D = t0 + 4000`).  Along every
-continuation in which the attempt stays pending, no send failure is injected for the pending link and
-tick clocks are positive: the deadline is renewed at most once and stays below `D + 4000`; and every
+continuation in which the attempt stays pending, no send failure and no socket re-creation failure is
+injected for the pending link (a failed re-creation of a never-established link is retried after
+1000 ms and re-sends REG1 each time, renewing the wait) and tick clocks are positive: the deadline is renewed at most once and stays below `D + 4000`; and every
 housekeeping tick that left the attempt pending had `now < D + 3999`. -/
 theorem abandon_bound {s0 : Sys F} (h0 : Startup s0) (i D : Nat) (l : FLink F) :
     ∀ (evs2 evs1 : List Ev), (runS s0 evs1).reg.pending = some i → (runS s0 evs1).reg.pendingTimeoutAt = D →
       (runS s0 evs1).links[i]? = some l → (runS s0 evs1).failNext.contains l.core.connId = false →
+      (runS s0 evs1).failBind.contains l.core.connId = false →
       Unanswered i (runS s0 evs1) evs2 →
       (∀ e ∈ evs2, e ≠ .failNext l.core.connId ∧ ∀ now, e = .hk now → 0 < now) →
+      (∀ e ∈ evs2, e ≠ .failBind l.core.connId) →
       Att i l.core.connId D (runS s0 (evs1 ++ evs2)) ∧
       ∀ pre now post, evs2 = pre ++ Ev.hk now :: post → now < D + 3999 := by
   have key : ∀ (evs2 evs1 : List Ev), Att i l.core.connId D (runS s0 evs1) →
       Unanswered i (runS s0 evs1) evs2 →
       (∀ e ∈ evs2, e ≠ .failNext l.core.connId ∧ ∀ now, e = .hk now → 0 < now) →
+      (∀ e ∈ evs2, e ≠ .failBind l.core.connId) →
       Att i l.core.connId D (runS s0 (evs1 ++ evs2)) ∧
       ∀ pre now post, evs2 = pre ++ Ev.hk now :: post → now < D + 3999 := by
     intro evs2
     induction evs2 with
     | nil =>
-      intro evs1 hA _ _
+      intro evs1 hA _ _ _
       rw [List.append_nil]
       exact ⟨hA, fun pre now post h => by cases pre <;> cases h⟩
     | cons e es ih =>
-      intro evs1 hA hun hev
+      intro evs1 hA hun hev hevb
       obtain ⟨hstay, hun'⟩ := hun
       obtain ⟨hne, hpos⟩ := hev e (by simp)
-      obtain ⟨hA', htick⟩ := att_step hA (regOk_run h0 evs1) e hstay hne hpos
+      obtain ⟨hA', htick⟩ := att_step hA (regOk_run h0 evs1) e hstay hne (hevb e (by simp)) hpos
       have hrun : runS s0 (evs1 ++ [e]) = (step (runS s0 evs1) e).1 := by rw [runS_append]; rfl
       obtain ⟨r1, r2⟩ := ih (evs1 ++ [e]) (by rw [hrun]; exact hA') (by rw [hrun]; exact hun')
-        (fun e' he' => hev e' (by simp [he']))
+        (fun e' he' => hev e' (by simp [he'])) (fun e' he' => hevb e' (by simp [he']))
       rw [List.append_assoc] at r1
       refine ⟨r1, ?_⟩
       intro pre now post hsplit
@@ -1970,8 +2073,8 @@ theorem abandon_bound {s0 : Sys F} (h0 : Startup s0) (i D : Nat) (l : FLink F) :
       | cons p ps =>
         simp only [List.cons_append, List.cons.injEq] at hsplit
         exact r2 ps now post hsplit.2
-  intro evs2 evs1 hp hD hl hnf hun hev
-  exact key evs2 evs1 ⟨hp, hnf, l, hl, rfl, Or.inl hD⟩ hun hev
+  intro evs2 evs1 hp hD hl hnf hnb hun hev hevb
+  exact key evs2 evs1 ⟨hp, hnf, hnb, l, hl, rfl, Or.inl hD⟩ hun hev hevb
 
 /-- **One housekeeping tick while uplink `i` is pending** (shell form of `Reg.tick_deadline`): from the
 deadline on the tick abandons the attempt; before it the attempt stays on `i` and the deadline is
